@@ -153,9 +153,9 @@ Definition do_eviction (cfg : config) (p : pool) : pool :=
 
 (** ---------- public operations ---------- *)
 
-(** AddTx: returns (pool, added) *)
-Definition add_tx (cfg : config) (p : pool) (t : tx) : pool * bool :=
-  let p0 := if evictionEnabled cfg then do_eviction cfg p else p in
+(** the insertion proper (after the optional eviction): both indexes under mutTxOperation,
+    then the bulk removal of what the per-sender limits dropped *)
+Definition add_core (cfg : config) (p0 : pool) (t : tx) : pool * bool :=
   let '(p1, addedH) := byhash_add p0 t in
   (* getOrAddListForSender *)
   let '(p2, sl) := match alookup (senders p1) (sender t) with
@@ -167,6 +167,10 @@ Definition add_tx (cfg : config) (p : pool) (t : tx) : pool * bool :=
   let p4 := match ev with [] => p3 | _ => remove_sender_if_empty p3 (sender t) end in
   let p5 := match ev with [] => p4 | _ => byhash_remove_bulk p4 ev end in
   (p5, addedH || addedS).
+
+(** AddTx: returns (pool, added) *)
+Definition add_tx (cfg : config) (p : pool) (t : tx) : pool * bool :=
+  add_core cfg (if evictionEnabled cfg then do_eviction cfg p else p) t.
 
 (** finding event F4: some sender is over a per-sender limit (possible only because
     applySizeConstraints drops at most one transaction) *)
